@@ -812,19 +812,15 @@ func (s *session) readDisconnected(oldConn net.Conn, err error) {
 			Debugf("disconnect(%s) when reading: %T %s", s.RemoteAddr().String(), err, errStr)
 		}
 	}
+	// Cancel the calls that wait for a reply BEFORE waiting for the running handlers: a
+	// handler may itself be waiting for the reply to a call it made on this session, and
+	// would never return (nor would this wait) if its call were cancelled only afterwards.
+	s.cancelPendingCalls(reason)
 	s.graceCtxWait()
 	verifGate("disc.precancel", s)
 
-	// cancel the callCmd that is waiting for a reply
-	s.callCmdMap.Range(func(_, v interface{}) bool {
-		callCmd := v.(*callCmd)
-		callCmd.mu.Lock()
-		if !callCmd.hasReply() && callCmd.stat.OK() {
-			callCmd.cancel(reason)
-		}
-		callCmd.mu.Unlock()
-		return true
-	})
+	// and again for the calls the handlers issued in the meantime
+	s.cancelPendingCalls(reason)
 
 	if status == statusActiveClosing {
 		return
@@ -837,6 +833,19 @@ func (s *session) readDisconnected(oldConn net.Conn, err error) {
 		s.notifyClosed()
 		s.peer.pluginContainer.postDisconnect(s)
 	}
+}
+
+// cancelPendingCalls cancels the callCmd that is waiting for a reply.
+func (s *session) cancelPendingCalls(reason string) {
+	s.callCmdMap.Range(func(_, v interface{}) bool {
+		callCmd := v.(*callCmd)
+		callCmd.mu.Lock()
+		if !callCmd.hasReply() && callCmd.stat.OK() {
+			callCmd.cancel(reason)
+		}
+		callCmd.mu.Unlock()
+		return true
+	})
 }
 
 func (s *session) redialForClient(oldConn net.Conn) bool {
